@@ -2,3 +2,4 @@ import AseProofs.Lemmas.Arith
 import AseProofs.Lemmas.BlendBasic
 import AseProofs.Props.C09
 import AseProofs.Props.C17
+import AseProofs.Props.C03
